@@ -208,7 +208,7 @@ func sample(t pbt.Named, c Case) {
 
 func TestRandom(t *testing.T) {
 	// one stored graph serves three traversals (storing the graph is half the cost of a case)
-	pbt.Check(t, 1100, 70000, func(rt *rapid.T) {
+	pbt.Check(t, 1100, 35000, func(rt *rapid.T) {
 		n := 0
 		switch s := rapid.IntRange(0, 9).Draw(rt, "sizeClass"); {
 		case s < 5:
